@@ -741,6 +741,12 @@ func (n *ExtendsNode) Render(w io.Writer, ctx *RenderContext) error {
 	// around a macro) stay visible to the parent template
 	parentCtx.parent = ctx.parent
 
+	// The blocks of the extending templates are rendered in the parent's
+	// context: the macros those templates define and import go with them
+	for name, macro := range ctx.macros {
+		parentCtx.macros[name] = macro
+	}
+
 	// Pass along the parent template as lastLoadedTemplate for relative path resolution
 	parentCtx.lastLoadedTemplate = parentTemplate
 
@@ -1524,8 +1530,28 @@ func (n *RootNode) Render(w io.Writer, ctx *RenderContext) error {
 		}
 	}
 
+	// The macros of a template can be called from anywhere in it, also before
+	// the place where they are written
+	for _, child := range n.children {
+		if macro, ok := child.(*MacroNode); ok {
+			if err := macro.Render(io.Discard, ctx); err != nil {
+				return err
+			}
+		}
+	}
+
 	// If this template extends another, handle that first
 	if extendsNode != nil {
+		// Nothing but the blocks of an extending template is rendered, but its
+		// blocks call the macros it imports: run its import tags
+		for _, child := range n.children {
+			switch child.(type) {
+			case *ImportNode, *FromImportNode:
+				if err := child.Render(io.Discard, ctx); err != nil {
+					return err
+				}
+			}
+		}
 		// Let the extends node handle the rendering, passing along
 		// all our blocks so they're available to the parent template
 		return extendsNode.Render(w, ctx)
